@@ -12,6 +12,7 @@ import PsutilModel.Proofs.C10Front
 import PsutilModel.Proofs.C10Conc
 import PsutilModel.Proofs.C10Dict
 import PsutilModel.Proofs.C10Sample
+import PsutilModel.Proofs.C10Lock
 import PsutilModel.Proofs.C10Out
 import PsutilModel.Model.C10Gen
 import PsutilModel.Spec.C10Plat
@@ -615,6 +616,104 @@ theorem cfg_sample_under_lock : cfg.SampleGood := by unfold Cfg.SampleGood; deci
 /-- **C10_concurrent_full_strength_cfg.** The concurrent clause at full strength for the code as it is now. -/
 theorem C10_concurrent_full_strength_cfg : C10_concurrent_Full cfg :=
   C10_concurrent_full_strength cfg cfg_good cfg_good_conc cfg_sample_under_lock
+
+/-! ### The sampling lock as an OBJECT: where it comes from, and thread switches before it is held (seeded C10-5)
+
+`Model/C10Lock`: a caller first evaluates the expression after `with` (`lookup`; policy `lazy`: a table lookup that
+may miss, followed by `create` = make a fresh lock object and store it), then acquires THAT object (`enter`), reads
+the kernel (`sample`), goes through `wrap_numbers` (`inner …`) and releases the object (`leave`). Any number of
+threads, any interleaving of these actions. `Sys.outer` is only a ghost in that model. -/
+
+/-- what `C10_concurrent_Full` promises, said of one state -/
+def ConcurrentPromise (c : Cfg) (w : Name → Nat) (s : Sys) : Prop :=
+  (callsOf s.log ++ pending s = s.samples ∧ (pending s).length ≤ 1)
+  ∧ (s.lock = none → ∀ (pre post : List (Nat × Op)) (t : Nat) (n : Name) (raw : Raw),
+      s.log = pre ++ (t, .call n true raw) :: post →
+      (∀ op ∈ pre.map (·.2), OpW w op) → RawW (w n) raw → NodupKeys raw → raw ≠ [] →
+      callsOf pre ++ (t, .call n true raw) :: (callsOf post ++ pending s) = s.samples
+      ∧ s.outs = (serial c St.init pre).2 ++ (t, .dict (expected (pre.map (·.2)) n raw))
+          :: (serial c (step c (runAll c St.init (pre.map (·.2))) (.call n true raw)).1 post).2)
+
+/-- **C10_lock_object_exclusive.** Whatever the policy: two threads are never inside sampling sections guarded by
+    the same lock OBJECT. (Under the lazy policy this is of no use: the two sections of one history may be guarded
+    by two different objects — `C10_lazy_lock_created_twice`.) -/
+theorem C10_lock_object_exclusive (c : Cfg) (pol : LockPolicy) (acts : List LAct) (s : LSys)
+    (h : runL c pol LSys.init acts = some s) (t u l : Nat)
+    (ht : secLock (s.lpc t) = some l) (hu : secLock (s.lpc u) = some l) : t = u := by
+  have hi := runL_invX c pol acts LSys.init s invX_init h
+  have := hi t l ht
+  rw [hi u l hu] at this
+  exact (Option.some.inj this).symm
+
+/-- **C10_static_lock_refines_sampling_lock.** With ONE lock object that exists before any call, every
+    interleaving of the lock-object model — thread switches between the start of a public call, the evaluation of
+    the `with` expression, the acquisition, the platform call, every step of `wrap_numbers` and the release
+    included — leaves the `_WrapNumbers` side in a state that `Model/C10Conc` reaches with the sample taken under
+    the lock: the flag `sampleUnderLock` is a sound abstraction of a statically created lock object. -/
+theorem C10_static_lock_refines_sampling_lock (c : Cfg) (l0 : Nat) (acts : List LAct) (s : LSys)
+    (h : runL c (.static fun _ => l0) LSys.init acts = some s) :
+    ∃ b, runC c.inside Sys.init b = some s.sys :=
+  (runL_static c l0 acts LSys.init s invX_init (invO_init l0) (reach_init c) h).2.2
+
+/-- **C10_concurrent_lock_objects.** The concurrent clause of the property over the lock-object model: for every
+    good configuration whose sampling lock is one statically created object, in EVERY interleaving the calls go
+    through `_wn.lock` in the order in which they read the kernel, and each `nowrap=True` call has returned
+    `expected` over exactly the snapshots read before its own. -/
+theorem C10_concurrent_lock_objects (c : Cfg) (hg : c.Good) (hc : c.GoodConc) (l0 : Nat) (w : Name → Nat)
+    (acts : List LAct) (s : LSys) (h : runL c (.static fun _ => l0) LSys.init acts = some s) :
+    ConcurrentPromise c.inside w s.sys := by
+  obtain ⟨b, hb⟩ := C10_static_lock_refines_sampling_lock c l0 acts s h
+  exact C10_concurrent_full_strength c.inside hg hc rfl w b s.sys hb
+
+/-- obligation fed by the translator fact `samplingLockStatic` (+ the three of `cfg_sample_under_lock`): the
+    expression after `with` in both front ends is a module-level NAME bound once, at import time, to
+    `threading.Lock()` and never rebound — no caller looks a lock up, or creates one, at call time. Breaks on a
+    lock table filled lazily (seeded C10-5), a lock created on first use through `global`, a lock factory call. -/
+theorem cfg_sampling_lock_static : genSamplingLockStatic = true := by decide
+
+theorem cfg_inside : cfg.inside = cfg := by
+  have h : cfg.sampleUnderLock = true := cfg_sample_under_lock
+  generalize cfg = c at h ⊢
+  cases c
+  simp only [Cfg.inside] at h ⊢
+  subst h
+  rfl
+
+/-- **C10_concurrent_lock_objects_cfg.** … for the code as it is now. -/
+theorem C10_concurrent_lock_objects_cfg (w : Name → Nat) (acts : List LAct) (s : LSys)
+    (h : runL cfg lockPolicy LSys.init acts = some s) : ConcurrentPromise cfg w s.sys := by
+  have hp : lockPolicy = .static fun _ => 0 := by
+    unfold lockPolicy; rw [if_pos cfg_sampling_lock_static]
+  rw [hp] at h
+  have := C10_concurrent_lock_objects cfg cfg_good cfg_good_conc 0 w acts s h
+  rwa [cfg_inside] at this
+
+/-- **C10_lazy_lock_created_twice.** Counterexample for a lock looked up in a table and created by the caller on a
+    miss (check-then-act; seeded C10-5): threads 0 and 1 make the first two calls of the process at once. Both
+    miss; thread 0 creates and takes lock object 0 and reads 100; thread 1 creates lock object 1 — the table now
+    names that one —, takes it although thread 0 is inside the section of the SAME history, reads 105 and goes
+    through `wrap_numbers`; thread 0 follows with its older sample: 205, and every later call carries the spurious
+    105 (110 → 215), although the kernel's counter never went backwards. The prefix of the same schedule without
+    the two `create`s is not a run with a statically created lock (thread 1 cannot enter). -/
+theorem C10_lazy_lock_created_twice :
+    let cold : List LAct :=
+      [.lookup 0 .net, .lookup 1 .net, .create 0, .enter 0, .sample 0 [("eth0", [100])],
+       .create 1, .enter 1, .sample 1 [("eth0", [105])]]
+    let rest : List LAct :=
+      [.inner (.acquire 1), .inner (.load 1), .inner (.store 1), .inner (.release 1), .leave 1,
+       .inner (.acquire 0), .inner (.load 0), .inner (.store 0), .inner (.release 0), .leave 0,
+       .lookup 0 .net, .enter 0, .sample 0 [("eth0", [110])],
+       .inner (.acquire 0), .inner (.load 0), .inner (.store 0), .inner (.release 0), .leave 0]
+    -- both threads are inside the sampling section of history `net`, holding two different lock objects
+    (runL cfg .lazy LSys.init cold).map (fun s => (secName (s.lpc 0), secLock (s.lpc 0), secName (s.lpc 1), secLock (s.lpc 1)))
+      = some (some .net, some 0, some .net, some 1)
+    ∧ (runL cfg .lazy LSys.init (cold ++ rest)).map (·.sys.outs)
+      = some [(1, .dict [("eth0", [105])]), (0, .dict [("eth0", [205])]), (0, .dict [("eth0", [215])])]
+    ∧ (runL cfg .lazy LSys.init (cold ++ rest)).map (fun s => decide (callsOf s.sys.log = s.sys.samples))
+      = some false
+    ∧ (runL cfg (.static fun _ => 0) LSys.init
+        [.lookup 0 .net, .lookup 1 .net, .enter 0, .sample 0 [("eth0", [100])], .enter 1]).isNone = true := by
+  refine ⟨by decide, by decide, by decide, by decide⟩
 
 /-- **C10_unlocked_not_serialisable.** The lock is what makes this true: with `run` outside the
     lock two threads that both read the cache `{sda:100}` before either writes it back return 110
